@@ -194,3 +194,7 @@ fn is_backface<V>(vs: &[Vertex<ScreenPt, V>]) -> bool {
     let u = vs[2].pos - vs[0].pos;
     v[0] * u[1] - v[1] * u[0] > 0.0
 }
+
+#[cfg(kani)]
+#[path = "/verif/kani/render.rs"]
+pub(crate) mod verif_kani;
